@@ -61,9 +61,9 @@ def wrap_graphs(quick, lib, extra, common=None):
           dict(name="mixwrap", constants=C(["aes16", "aes32"], A, wrap=ok(["KW", "CBCPAD", "KWP"]), imp=(1, 2)), maxwalks=w // 2),
           dict(name="privwrap", constants=C(["aes16", "rsa", "gen16"], A, wrap=ok(["KWP", "CBCPAD"])), maxwalks=w // 2),
           # CKA_WRAP_TEMPLATE / CKA_UNWRAP_TEMPLATE of the wrapping key (AES, and the RSA pair)
-          dict(name="wtmpl", constants=C(["aes16", "des3"], ["impt", "two", "wrap", "unwrapt", "value"], wrap=ok(["KWP"]),
+          dict(name="wtmpl", constants=C(["aes16", "des3"], ["impt", "two", "wrap", "unwrapt", "value", "valuer"], wrap=ok(["KWP"]),
                                          wt=ALLTMPLS), maxwalks=w),
-          dict(name="utmpl", constants=C(["aes16", "des3"], ["impt", "two", "wrap", "unwrapt", "value"], wrap=ok(["KWP"]),
+          dict(name="utmpl", constants=C(["aes16", "des3"], ["impt", "two", "wrap", "unwrapt", "value", "valuer"], wrap=ok(["KWP"]),
                                          ut=ALLTMPLS), maxwalks=w),
           dict(name="tmpl-rsa", constants=C(["rsa", "aes16"], ["impt", "two", "wrap", "unwrapt"], wrap=ok(["OAEP", "KWP"]),
                                             wt=["none", "encF", "ktAes"], ut=["none", "encF", "ktAes"]), maxwalks=w // 2),
